@@ -97,6 +97,7 @@ package jsonrpc2
 // fact about the goroutine that carries the request, assumed, not machine-checked.
 //@ func (*Connection).processResult$2 [C02]
 //@   assume s.incoming > 0 && len(s.incomingByID) < s.incoming
+//@   ensures @slot-given-back s.incoming == old(s.incoming) - 1
 
 // acceptRequest runs on the reader goroutine only; s.reading stays true until that goroutine's own exit action.
 //@ func (*Connection).acceptRequest$1 [C02]
